@@ -86,11 +86,14 @@ theorem timePhase_le (strict : Bool) (p : Params) (cks : List Chunk) (k1 s1 : Na
     simpa [timeLoop] using this
   · simp
 
-theorem choose_n_le (strict : Bool) (p : Params) (cks : List Chunk) (jsize : Nat) :
-    (choose strict p cks jsize).n ≤ cks.length := by
+theorem chooseAt_n_le (strict : Bool) (p : Params) (cks : List Chunk) (jsize : Nat) :
+    (chooseAt strict p cks jsize).n ≤ cks.length := by
   have h1 := sizePhase_le p cks jsize
   have h2 := timePhase_le strict p cks (sizePhase p cks jsize).1 (sizePhase p cks jsize).2
-  simp only [choose, Choice.n]; omega
+  simp only [chooseAt, Choice.n]; omega
+
+theorem choose_n_le (strict : Bool) (p : Params) (cks : List Chunk) :
+    (choose strict p cks).n ≤ cks.length := chooseAt_n_le strict p cks (psize cks)
 
 /-- size phase on a consistent snapshot -/
 theorem sizePhase_spec (p : Params) (cks : List Chunk) :
@@ -116,7 +119,7 @@ theorem take_drop_psize (cks : List Chunk) (k i : Nat) :
 
 /-- the whole chooser on a consistent snapshot -/
 theorem choose_spec (strict : Bool) (p : Params) (cks : List Chunk) :
-    let ch := choose strict p cks (psize cks)
+    let ch := choose strict p cks
     ch.size + psize (cks.take ch.n) = psize cks ∧
     (∀ i, i < ch.bySize →
       0 < p.maxSrc ∧ p.maxSrc < psize cks - psize (cks.take i) ∧ p.minSrc ≤ psize cks - psize (cks.take (i + 1))) ∧
@@ -191,11 +194,11 @@ theorem deleteUpTo_sorted : ∀ (cks : List Chunk) (n : Nat), Ascending cks → 
         simp only [List.filter_cons, hneg, if_false, Bool.false_eq_true]
         exact this
 
-theorem truncate_chunks (strict : Bool) (p : Params) (cks : List Chunk) (jsize : Nat) (hs : Ascending cks) :
-    (truncate strict p cks jsize).chunks =
-      if p.dryRun = true then cks else cks.drop (choose strict p cks jsize).n := by
+theorem truncate_chunks (strict : Bool) (p : Params) (cks : List Chunk) (hs : Ascending cks) :
+    (truncate strict p cks).chunks =
+      if p.dryRun = true then cks else cks.drop (choose strict p cks).n := by
   unfold truncate
-  by_cases h : (choose strict p cks jsize).n = 0 ∨ p.dryRun = true
+  by_cases h : (choose strict p cks).n = 0 ∨ p.dryRun = true
   · simp only [h, if_true]
     by_cases hd : p.dryRun = true
     · simp [hd]
@@ -203,28 +206,28 @@ theorem truncate_chunks (strict : Bool) (p : Params) (cks : List Chunk) (jsize :
       · simp [hd, h]
       · exact absurd h hd
   · simp only [h, if_false]
-    have hn : 0 < (choose strict p cks jsize).n := by omega
+    have hn : 0 < (choose strict p cks).n := by omega
     have hd : ¬ p.dryRun = true := fun e => h (Or.inr e)
     simp only [hd, if_false]
-    exact deleteUpTo_sorted cks _ hs hn (choose_n_le strict p cks jsize)
+    exact deleteUpTo_sorted cks _ hs hn (choose_n_le strict p cks)
 
-theorem truncate_n (strict : Bool) (p : Params) (cks : List Chunk) (jsize : Nat) (hs : Ascending cks) :
-    (truncate strict p cks jsize).n = (choose strict p cks jsize).n := by
+theorem truncate_n (strict : Bool) (p : Params) (cks : List Chunk) (hs : Ascending cks) :
+    (truncate strict p cks).n = (choose strict p cks).n := by
   unfold truncate
-  by_cases h : (choose strict p cks jsize).n = 0 ∨ p.dryRun = true
+  by_cases h : (choose strict p cks).n = 0 ∨ p.dryRun = true
   · simp [h]
   · simp only [h, if_false]
-    have hn : 0 < (choose strict p cks jsize).n := by omega
-    rw [deleteUpTo_sorted cks _ hs hn (choose_n_le strict p cks jsize), List.length_drop]
-    have := choose_n_le strict p cks jsize
+    have hn : 0 < (choose strict p cks).n := by omega
+    rw [deleteUpTo_sorted cks _ hs hn (choose_n_le strict p cks), List.length_drop]
+    have := choose_n_le strict p cks
     omega
 
 theorem truncate_removed (strict : Bool) (p : Params) (cks : List Chunk) :
-    (truncate strict p cks (psize cks)).removed = psize (cks.take (choose strict p cks (psize cks)).n) := by
+    (truncate strict p cks).removed = psize (cks.take (choose strict p cks).n) := by
   have h := (choose_spec strict p cks).1
-  have e : (truncate strict p cks (psize cks)).removed = sub64 (psize cks) (choose strict p cks (psize cks)).size := by
+  have e : (truncate strict p cks).removed = sub64 (psize cks) (choose strict p cks).size := by
     unfold truncate
-    by_cases hh : (choose strict p cks (psize cks)).n = 0 ∨ p.dryRun = true
+    by_cases hh : (choose strict p cks).n = 0 ∨ p.dryRun = true
     · simp [hh]
     · simp [hh]
   rw [e, sub64_of_le (by omega)]; omega
@@ -238,10 +241,10 @@ theorem psize_filter_le (f : Chunk → Bool) (l : List Chunk) : psize (l.filter 
     · simp only [psize_cons]; omega
     · simp only [psize_cons]; omega
 
-theorem truncate_psize_le (strict : Bool) (p : Params) (cks : List Chunk) (jsize : Nat) :
-    psize (truncate strict p cks jsize).chunks ≤ psize cks := by
+theorem truncate_psize_le (strict : Bool) (p : Params) (cks : List Chunk) :
+    psize (truncate strict p cks).chunks ≤ psize cks := by
   unfold truncate
-  by_cases hh : (choose strict p cks jsize).n = 0 ∨ p.dryRun = true
+  by_cases hh : (choose strict p cks).n = 0 ∨ p.dryRun = true
   · simp [hh]
   · simp only [hh, if_false, deleteUpTo]
     exact psize_filter_le _ _
@@ -316,6 +319,45 @@ theorem globalLoop_dry_db (strict : Bool) (gMin gMax : Nat) (p : Params) (hd : p
       · simp only [h2, if_false]; exact ih _ _
     · simp [h1]
 
+/-! ### the MAXDBSIZE pass: a dry step announces what the real step does -/
+
+/-- the loop with `Max = 1, Min = 0` takes every chunk when no chunk is smaller than 2 bytes -/
+theorem takeLoop_all : ∀ (cks : List Chunk) (size : Nat), psize cks ≤ size → (∀ c ∈ cks, 2 ≤ c.size) →
+    (takeLoop (fun _ s => decide (1 < s)) 0 cks size).1 = cks.length := by
+  intro cks
+  induction cks with
+  | nil => intro size _ _; simp [takeLoop]
+  | cons c cs ih =>
+    intro size hsz hall
+    rw [psize_cons] at hsz
+    have hc : 2 ≤ c.size := hall c (by simp)
+    unfold takeLoop
+    have hcond : (decide (1 < size) = true ∧ 0 ≤ sub64 size c.size) := ⟨by simp; omega, Nat.zero_le _⟩
+    simp only [hcond, and_self, if_true, List.length_cons]
+    rw [sub64_of_le (by omega)]
+    rw [ih (size - c.size) (by omega) (fun d hd => hall d (by simp [hd]))]
+
+/-- **the inner call of the MAXDBSIZE pass (`MinSrcSize 0, MaxSrcSize 1`) empties the partition** -/
+theorem global_truncate_empties (strict : Bool) (cks : List Chunk) (hs : Ascending cks) (hall : ∀ c ∈ cks, 2 ≤ c.size) :
+    (truncate strict { dryRun := false, minSrc := 0, maxSrc := 1 } cks).chunks = [] := by
+  rw [truncate_chunks _ _ _ hs]
+  have hn : (choose strict { dryRun := false, minSrc := 0, maxSrc := 1 } cks).n = cks.length := by
+    have h1 : (sizePhase { dryRun := false, minSrc := 0, maxSrc := 1 } cks (psize cks)).1 = cks.length := by
+      unfold sizePhase
+      simp only [Nat.lt_irrefl, Nat.zero_lt_one, and_self, if_true, sizeLoop]
+      exact takeLoop_all cks (psize cks) (Nat.le_refl _) hall
+    have hle := choose_n_le strict { dryRun := false, minSrc := 0, maxSrc := 1 } cks
+    have : (choose strict { dryRun := false, minSrc := 0, maxSrc := 1 } cks).bySize = cks.length := h1
+    simp only [Choice.n] at hle ⊢
+    omega
+  simp [hn]
+
+/-- **chunk count of a taken partition: dry = real.** The dry step sees the unreduced list and subtracts what phase I
+already counted; the real step sees the list phase I left. -/
+theorem takenInfo_dry_eq_run (ti : Info) (cks : List Chunk) (h : ti.chunksDeleted ≤ cks.length) :
+    takenInfo true ti cks = takenInfo false ti (cks.drop ti.chunksDeleted) := by
+  simp [takenInfo, List.length_drop]
+
 /-! ### phase I -/
 
 theorem phase1Part_dry (strict : Bool) (p : Params) (hd : p.dryRun = true) (part : Part) :
@@ -327,7 +369,7 @@ theorem phase1Part_dry (strict : Bool) (p : Params) (hd : p.dryRun = true) (part
     by_cases hz : psize part.chunks = 0
     · simp [hz, hd]
     · simp only [hz, if_false, hd]
-      have : (truncate strict p part.chunks (psize part.chunks)).chunks = part.chunks := by
+      have : (truncate strict p part.chunks).chunks = part.chunks := by
         unfold truncate; simp [hd]
       simp only [this]
       cases part; simp_all
